@@ -2,8 +2,9 @@
 
 Tie to the source:
   (1) facts regenerated from src/mxlpy/meta/codegen_mxlpy.py / sympy_tools.py into
-      coq/mxlgen/GenMxlGenFacts.v (key scheme of every kind of slot of the `functions` dict; body
-      shapes of the generators) -- PropsC11.v pins them (harness/c11_extract.py);
+      coq/mxlgen/GenMxlGenFacts.v (key scheme of every kind of slot of the `functions` dict; the way
+      a definition is stored under its key -- overwrite / _register_fn; body shapes of the
+      generators) -- PropsC11.v pins them (harness/c11_extract.py);
   (2) correspondence: the Gallina round trip (to_symbolic_repr, generate_from_symrepr, exec_code,
       then Core's create_cache / get_args / get_fluxes / get_rhs under the meaning of the emitted
       defs) is evaluated inside Coq (vm_compute) on the same models and compared with what the real
@@ -17,12 +18,19 @@ Tie to the source:
 
 Functions live in real module files: harness/fnlib.py for the ordinary ones and two generated
 modules (scratch dir) with deliberately clashing __name__s.
+
+Two states of the tree are understood (regenerated fact `register`): the snapshot's
+`functions[key] = ...` (three recorded findings, theorem C11_roundtrip_partial) and the repaired
+`_register_fn` of fixes/C11-function-name-collisions.diff (theorem C11_roundtrip, nothing recorded).
+coq/mxlgen/ExpectedFacts.v + known_findings.d/C11.json say which one is expected; tools/c11_switch.py
+flips both.  The witnesses of the three defects are part of the corpus in both states.
 """
 
 from __future__ import annotations
 
 import ast
 import importlib
+import re
 import shutil
 import signal
 import sys
@@ -56,7 +64,7 @@ def gen() -> dict:
         "   breaks C11_facts_pinned. *)\n"
         "From MxlGen Require Import SymRepr.\n"
         f"Definition gen_mxlgen_facts : gen_facts := mkGenFacts {f['var_key']} {f['par_key']} {f['der_key']} "
-        f"{f['rxn_key']} {f['sto_key']} {f['codegen_shape']} {f['symrepr_shape']}.\n"
+        f"{f['rxn_key']} {f['sto_key']} {f['register']} {f['codegen_shape']} {f['symrepr_shape']}.\n"
     )
     common.write_if_changed(common.area_dir(AREA) / "GenMxlGenFacts.v", text)
     return f
@@ -486,14 +494,34 @@ def _valref(node: ast.expr) -> tuple:
     return ("num", _num(node))
 
 
+_PARAM = re.compile(r"^(time|n\d{4})(_\d+)?$")
+
+
+def _param(name: str, seen: list[str]) -> int:
+    """Model name a def parameter stands for.  _parameter_names (repaired generator) renames the later
+    positions of a repeated model name to <name>_<i>: such a parameter stands for <name> -- but only
+    if <name> really is an earlier parameter of the same def."""
+    mt = _PARAM.match(name)
+    if not mt:
+        raise ShapeError(f"def parameter {name!r} is not a model name")
+    if mt.group(2) and mt.group(1) not in seen:
+        raise ShapeError(f"def parameter {name!r} looks renamed but {mt.group(1)!r} is not an earlier parameter")
+    return un(mt.group(1))
+
+
 def parse_source(src: str) -> tuple[list[tuple[str, list[int]]], list[tuple]]:
     """-> (defs [(name, [param names])], builder chain [op tuples]) read from the emitted TEXT."""
-    tree = ast.parse(src)
+    tree = ast.parse(src)  # a repeated parameter is only rejected by compile(), not by the parser
     defs = []
     chain: list[tuple] = []
     for node in tree.body:
         if isinstance(node, ast.FunctionDef) and node.name != "create_model":
-            defs.append((node.name, [un(a.arg) for a in node.args.args]))
+            seen: list[str] = []
+            ps = []
+            for a in node.args.args:
+                ps.append(_param(a.arg, seen))
+                seen.append(a.arg)
+            defs.append((node.name, ps))
         elif isinstance(node, ast.FunctionDef):
             ret = node.body[-1]
             if not isinstance(ret, ast.Return) or ret.value is None:
@@ -823,8 +851,18 @@ def check(run: Run) -> None:
         "function slot; distinct by content.  Cases whose values leave |v|<2^40 are discarded and counted."
     )
     proofs_ok = run.check_proofs(AREA, PROPS)
+    if facts.get("register") == "RegFresh":
+        run.note("the tree stores generated definitions with _register_fn (RegFresh): covered by theorem C11_roundtrip (full statement, no guard)")
+    elif facts.get("register") == "RegOverwrite":
+        run.note(
+            "the tree stores generated definitions with functions[key] = ... (RegOverwrite): covered by C11_roundtrip_partial under its "
+            "guards; outside them the three recorded findings apply (C11_*_refuted)"
+        )
     run.assumptions += [
         "Coq 8.16.1 kernel + vm_compute",
+        "SymPy's structural equality of two positional functions (_positional_fn(..) == _positional_fn(..)) implies that they are the "
+        "same function: HYPOTHESIS same_fn of C11_roundtrip; the executable instance compares body id + positions of the arguments, "
+        "which coincides with SymPy on the polynomial function library used here (checked by the correspondence of the emitted names)",
         "per-function translation soundness (fn_to_sympy + SymPy's printer: the emitted body evaluates to the function's value "
         "at the substituted arguments) is a HYPOTHESIS of the theorems (property C06) and is built into the executable instance; "
         "it is exercised here on polynomial functions only",
@@ -844,7 +882,10 @@ def check(run: Run) -> None:
 
 
 def _run_cases(run: Run, rng, fns: Fns, thorough: bool, proofs_ok: bool) -> None:
+    # hand-written corpus, then the witnesses of the three defects of the snapshot's generator (recorded findings
+    # there; after the repair they are ordinary cases, so a reappearance is reported with exactly these inputs)
     cases: list[tuple[str, dict]] = [("corpus", _tupled(d)) for d in CORPUS]
+    cases += [("witness", _tupled(d)) for d in WITNESSES.values()]
     n_random = 2400 if thorough else 260
     weights = [3, 3, 2, 1.5, 1.5, 1.5, 1.5, 2]
     for _ in range(n_random):
@@ -926,10 +967,11 @@ def _run_cases(run: Run, rng, fns: Fns, thorough: bool, proofs_ok: bool) -> None
     # classify oracle failures: a recorded finding iff outside the guard AND the faithful model agrees
     known_counts: dict[str, int] = {}
     n_viol = 0
+    recorded = {f.get("id") for f in common.load_known_findings("C11")}
     for idx, bad in failures:
         kind, desc = cases[idx]
         gv = guard_violations(desc)
-        if gv and translatable(desc) and idx in evaluated and idx not in mismatching:
+        if gv and gv <= recorded and translatable(desc) and idx in evaluated and idx not in mismatching:
             for g in gv:
                 known_counts[g] = known_counts.get(g, 0) + 1
             continue
